@@ -91,6 +91,11 @@ func pathOf(class string) string {
 		return "/pass/fwd"
 	case "health":
 		return "/litefs/health"
+	case "query":
+		// the path matches no pattern; the query string would match the passthrough pattern *.png and the always-forward pattern /fwd/*
+		return "/app/x?next=/fwd/1&img=/static/logo.png"
+	case "png":
+		return "/static/logo.png"
 	}
 	return "/"
 }
@@ -203,7 +208,7 @@ func run1(t *testing.T, c Case) (res Result) {
 		proxy := lfshttp.NewProxyServer(N.Store)
 		proxy.Target = "app.internal:8080"
 		proxy.DBName = tracked
-		proxy.Passthroughs = []*regexp.Regexp{regexp.MustCompile(`^/pass/.*$`)}
+		proxy.Passthroughs = []*regexp.Regexp{regexp.MustCompile(`^/pass/.*$`), regexp.MustCompile(`^.*\.png$`)}
 		proxy.AlwaysForward = []*regexp.Regexp{regexp.MustCompile(`^/fwd/.*$`), regexp.MustCompile(`^/pass/fwd$`)}
 		proxy.HTTPTransport = &http.Transport{
 			DisableKeepAlives: true,
@@ -279,7 +284,7 @@ func run1(t *testing.T, c Case) (res Result) {
 		mu.Unlock()
 
 		isRead := c.Method == "GET" || c.Method == "HEAD"
-		pass := c.Path == "pass" || c.Path == "both"
+		pass := c.Path == "pass" || c.Path == "both" || c.Path == "png"
 		alwaysFwd := c.Path == "fwd" || c.Path == "both"
 		health := c.Path == "health" && c.Method == "GET" && !pass
 		treatedAsRead := isRead && !alwaysFwd
@@ -369,7 +374,7 @@ func TestCheck(t *testing.T) {
 	var cases []Case
 	for _, role := range []string{"primary", "replica", "orphan"} {
 		for _, m := range []string{"GET", "HEAD", "POST", "PUT", "PATCH", "DELETE", "OPTIONS"} {
-			for _, p := range []string{"plain", "pass", "fwd", "both", "health"} {
+			for _, p := range []string{"plain", "pass", "fwd", "both", "health", "query", "png"} {
 				for _, ck := range []string{"absent", "malformed", "behind", "equal", "ahead1", "far"} {
 					if role == "orphan" && ck != "absent" && ck != "far" && ck != "malformed" {
 						continue // no database on an orphan: cookie relations are meaningless
